@@ -9,9 +9,11 @@
     is modelled at the cell level (Model/DeRows.v): whatever row fails, at
     whatever cell, with or without surplus tokens, every value created is
     dropped exactly once — with the two repairs of finding F9 read off the
-    source (Gen/Facts.v) and each shown necessary. *)
+    source (Gen/Facts.v) and each shown necessary; likewise for a column-wise
+    table (Model/DeCols.v; finding F14: an error of the deserializer after a
+    column was read). *)
 From Coq Require Import Permutation.
-From Brood Require Import Base World Multi SerdeC BaseFacts Inv StepInv SerdeL SerdeCFacts DeRows DeRowsFacts.
+From Brood Require Import Base World Multi SerdeC BaseFacts Inv StepInv SerdeL SerdeCFacts DeRows DeRowsFacts DeCols DeColsFacts.
 
 (** For ALL content — identifiers listed twice, listed as free and as stored,
     out of range or missing, archetypes repeated, wrong declared lengths, rows of
@@ -105,4 +107,33 @@ Print Assumptions C11_F9_without_the_repair.
 
 Example C11_table_example : de_table_src 2 2 [[Some 1%N; Some 2%N]; [Some 3%N; None]]
   = (None, [Made 1%N; Made 2%N; Made 3%N; Gone 3%N; Gone 1%N; Gone 2%N]).
+Proof. vm_compute. reflexivity. Qed.
+
+(** Column-wise (compact) table, any number of columns, any declared length, any columns — short, long
+    (the deserializer then fails AFTER the column's visitor has returned), ill-typed at any element, too
+    few columns: a failure drops exactly the values it created, a success drops nothing and stores exactly
+    the values it created, [len] per column.  This is finding F14 REPAIRED: the visitor hands the column
+    back as an owned [Vec], which is read off the source ([fact_de_column_returns_owned_vec]). *)
+Theorem C11_failed_column_table_drops_what_it_created : forall ncols len cols,
+  match de_ctable_src ncols len cols with
+  | (None, evs) => Permutation (made evs) (gone evs)
+  | (Some res, evs) => gone evs = [] /\ Permutation (made evs) (concat res) /\ Forall (fun c => length c = len) res
+  end.
+Proof. exact de_ctable_src_conserves. Qed.
+Check (C11_failed_column_table_drops_what_it_created : forall ncols len cols,
+  match de_ctable_src ncols len cols with
+  | (None, evs) => Permutation (made evs) (gone evs)
+  | (Some res, evs) => gone evs = [] /\ Permutation (made evs) (concat res) /\ Forall (fun c => length c = len) res
+  end).
+Print Assumptions C11_failed_column_table_drops_what_it_created.
+
+(** finding F14 as it was before the repair: raw parts handed back through the deserializer, a trailing element *)
+Theorem C11_F14_without_the_repair :
+  let '(res, evs) := de_ctable false 1 2 [[Some 1%N; Some 2%N; Some 3%N]] in
+  res = None /\ made evs = [1%N; 2%N] /\ gone evs = [].
+Proof. exact raw_parts_leak. Qed.
+Print Assumptions C11_F14_without_the_repair.
+
+Example C11_column_table_example : de_ctable_src 2 2 [[Some 1%N; Some 3%N]; [Some 2%N; None]]
+  = (None, [Made 1%N; Made 3%N; Made 2%N; Gone 2%N; Gone 1%N; Gone 3%N]).
 Proof. vm_compute. reflexivity. Qed.
